@@ -130,7 +130,8 @@ class Env:
 
     # ---------------------------------------------------------------- rendering
     def modname(self, m: str) -> str:
-        return f"verif_{self.uid}_{m}"
+        # (`modnames` lets a driver give a generated module a name of its choice, e.g. one a standard-library module also has)
+        return getattr(self, "modnames", {}).get(m) or f"verif_{self.uid}_{m}"
 
     def filename(self, m: str) -> str:
         return f"/verif-generated/{self.modname(m)}.py"
@@ -264,6 +265,10 @@ class Env:
                 if fl == "typeddict_nr" and has_d:
                     src = f"typing.NotRequired[{src}]"     # src may itself be a quoted forward reference
                 lines.append(f"    {fn}: {src}")
+        elif fl == "typeddict_fn":
+            # the functional syntax: keys that are Python keywords or no identifiers at all
+            items = ", ".join(f"{fn!r}: {src}" for fn, src, has_d, T in fields)
+            lines.append(f"{name} = typing.TypedDict({name!r}, {{{items}}})")
         elif fl == "typeddict_inh2":
             # a total body on top of a total=False base: the base's keys stay optional
             lines.append(f"class {name}_base(typing.TypedDict, total=False):")
